@@ -439,6 +439,10 @@ func run(seed int64, n int, out string, args []string) {
 		qt := w
 		plan = append(plan, job{vets: []vetItem{{qt, false, false}}, run: func() { qryCase(o, qt) }})
 	}
+	for _, w := range nqWitnesses {
+		qt := w
+		plan = append(plan, job{vets: []vetItem{{qt, false, false}}, run: func() { nqCase(o, qt) }})
+	}
 	ps := newParseStream(o, g)
 	defer ps.close()
 	plan = append(plan, ps.witnesses()...)
@@ -481,6 +485,10 @@ func run(seed int64, n int, out string, args []string) {
 		if i%2 == 0 {
 			qt := genQryCaseText(g)
 			plan = append(plan, job{vets: []vetItem{{qt, false, false}}, run: func() { qryCase(o, qt) }})
+		}
+		if i%2 == 1 {
+			nt := genNqCaseText(g)
+			plan = append(plan, job{vets: []vetItem{{nt, false, false}}, run: func() { nqCase(o, nt) }})
 		}
 	}
 	plan = append(plan, ps.plan(n-nEsc-nScan-nUnary)...)
